@@ -261,3 +261,33 @@ V("c06-polygon-sum-no-axis", "fault", "C06", P + "polygon.py",
   "winding_number = np.sum(half_turn, axis=0) // 2", "winding_number = np.sum(half_turn) // 2", rule="IN-2")
 V("c06-rw-norm-form", "rewrite", "C06", P + "circle.py",
   "np.linalg.norm(points, axis=-1) <= self.radius", "np.linalg.norm(points, axis=1) <= self.radius")
+
+# ------------------------------------------------------------------------------------------ C13
+V("c13-misnamed-ball", "fault", "C13", P + "circle.py", "    def maximal_bounded_circle(self):", "    def maximal_bounding_circle(self):", rule="API-1")
+V("c13-ellipsoid-min-two-axes", "fault", "C13", P + "ellipsoid.py",
+  "    def maximal_bounded_sphere(self):\n        \"\"\":class:`~.Sphere`: Get the largest bounded sphere.\"\"\"\n        return Sphere(min(self.a, self.b, self.c), self.centroid)",
+  "    def maximal_bounded_sphere(self):\n        \"\"\":class:`~.Sphere`: Get the largest bounded sphere.\"\"\"\n        return Sphere(min(self.a, self.b), self.centroid)", rule="EXT-1")
+V("c13-ellipse-max-for-bounded", "fault", "C13", P + "ellipse.py",
+  "    def maximal_bounded_circle(self):\n        \"\"\":class:`~.Circle`: Get the largest bounded circle.\"\"\"\n        return Circle(min(self.a, self.b), self.centroid)",
+  "    def maximal_bounded_circle(self):\n        \"\"\":class:`~.Circle`: Get the largest bounded circle.\"\"\"\n        return Circle(max(self.a, self.b), self.centroid)", rule="EXT-1")
+V("c13-sphere-ball-at-origin", "fault", "C13", P + "sphere.py",
+  "    def minimal_bounding_sphere(self):\n        \"\"\":class:`~.Sphere`: Get the smallest bounding sphere.\"\"\"\n        return Sphere(self.radius, self.centroid)",
+  "    def minimal_bounding_sphere(self):\n        \"\"\":class:`~.Sphere`: Get the smallest bounding sphere.\"\"\"\n        return Sphere(self.radius)", rule=None)
+V("c13-radius-getter-other-ball", "fault", "C13", P + "base_classes.py",
+  "        return self.maximal_bounded_sphere.radius", "        return self.maximal_centered_bounded_sphere.radius", rule="API-2")
+V("c13-centered-min-instead-of-max", "fault", "C13", P + "convex_polyhedron.py",
+  "np.linalg.norm(self.vertices - self.center, axis=-1).max(), self.center", "np.linalg.norm(self.vertices - self.center, axis=-1).min(), self.center", rule="CEN-1")
+V("c13-centered-at-vertex-mean", "fault", "C13", P + "convex_polygon.py",
+  "            np.linalg.norm(self.vertices - self.center, axis=-1).max(), self.center\n",
+  "            np.linalg.norm(self.vertices - self.center, axis=-1).max(), np.mean(self.vertices, axis=0)\n", rule="CEN-1")
+V("c13-circumsphere-guard", "fault", "C13", P + "polyhedron.py",
+  "        if len(self.vertices) > 4 and not np.isclose(resids, 0):\n            raise RuntimeError(\"No circumsphere for this polyhedron.\")",
+  "        if len(self.vertices) > 5 and not np.isclose(resids, 0):\n            raise RuntimeError(\"No circumsphere for this polyhedron.\")", rule="EX-1")
+V("c13-insphere-valueerror", "fault", "C13", P + "polyhedron.py",
+  'raise RuntimeError("No insphere for this polyhedron.")', 'raise ValueError("No insphere for this polyhedron.")', rule="EX-1")
+V("c13-incircle-no-test", "fault", "C13", P + "polygon.py",
+  "        if len(self.vertices) > 3 and not np.isclose(resids, 0):\n            raise RuntimeError(\"No incircle for this polygon.\")\n", "", rule="EX-1")
+V("c13-radius-squared", "fault", "C13", P + "polyhedron.py", "return Sphere(np.sqrt(r2), center)", "return Sphere(r2, center)", rule="DEG")
+V("c13-rw-ge-guard", "rewrite", "C13", P + "polyhedron.py",
+  "        if len(self.vertices) > 4 and not np.isclose(resids, 0):\n            raise RuntimeError(\"No circumsphere for this polyhedron.\")",
+  "        if len(self.vertices) >= 5 and not np.isclose(resids, 0):\n            raise RuntimeError(\"No circumsphere for this polyhedron.\")")
